@@ -43,7 +43,11 @@ class World:
 
         self._rc.time = kernel.TimeShim(self.clock)
         kernel.reset_rope_globals()
-        self.project = Project(self.root, fscommands=self.fs, ropefolder=self.ropefolder, **self.prefs)
+        import warnings
+
+        with warnings.catch_warnings():
+            warnings.simplefilter("ignore", DeprecationWarning)
+            self.project = Project(self.root, fscommands=self.fs, ropefolder=self.ropefolder, **self.prefs)
         self.opens += 1
         return self.project
 
